@@ -1204,7 +1204,7 @@ func (x *c16Runner) directionB(k *c16Case, params []c16Field, bound map[string]*
 						Impl:  realJ, Model: rep, Broken: "correspondence C16.encode (Martian.Invocation.encode)"})
 				}
 			})
-			// the hypothesis of convert_encode / binding_roundtrip (wt at the parameter's type for a plain
+			// the hypothesis of convert_encode_partial / binding_roundtrip_partial (wt at the parameter's type for a plain
 			// binding, splitOperandOk for a split one) must HOLD on every binding of a call the real
 			// compiler accepts: otherwise the theorem does not cover an input the runs cover
 			if callable != nil && compiles {
@@ -1219,9 +1219,9 @@ func (x *c16Runner) directionB(k *c16Case, params []c16Field, bound map[string]*
 						r.hist("B_model_bindok_" + strings.ReplaceAll(rep, " ", "_"))
 						if rep != "true true" {
 							r.violate(Violation{Kind: "correspondence", Key: kk.key("B-hypothesis-wt"),
-								What:   "the typing hypothesis of binding_roundtrip (wt / splitOperandOk, intsOk) is false on a binding of a call the real compiler accepts: " + rep,
+								What:   "the typing hypothesis of binding_roundtrip_partial (wt / splitOperandOk, intsOk) is false on a binding of a call the real compiler accepts: " + rep,
 								Input:  map[string]interface{}{"param": pid, "type": tt, "binding": at, "case": kk.input()},
-								Broken: "binding_roundtrip / convert_encode (hypothesis wt / splitOperandOk)"})
+								Broken: "binding_roundtrip_partial / convert_encode_partial (hypothesis wt / splitOperandOk)"})
 						}
 					})
 				}
